@@ -23,6 +23,11 @@ type c10Case struct {
 	Optional  []bq.Clause `json:"optional"`
 	Global    *bq.Global  `json:"global,omitempty"`
 	Excluded  []string    `json:"excluded,omitempty"`
+	// Chained: a later OPTIONAL clause may use a binding that only an earlier OPTIONAL clause
+	// introduces (and that is NULL for the rows that clause did not match). The statement does
+	// not say what "agrees" means against such a NULL, so only "no solution of the preceding
+	// pattern is removed or invented" is required of these cases.
+	Chained bool `json:"chained,omitempty"`
 }
 
 func (c c10Case) queries() (left, full bq.Query) {
@@ -125,11 +130,33 @@ func genC10(t *rapid.T) c10Case {
 		default:
 			oc = g.GenClauseMixed(fmt.Sprintf("o%d", i), bq.ClauseOpts{})
 		}
+		if i > 0 && gen.Maybe(t, 25, "chain-on-purpose") {
+			// hang the clause on a binding that only the previous OPTIONAL clause introduces
+			var only []string
+			for _, b := range []string{c.Optional[i-1].S.Binding, c.Optional[i-1].O.Binding} {
+				if b != "" && !mandatoryNames[b] {
+					only = append(only, b)
+				}
+			}
+			if len(only) > 0 {
+				oc = g.GenClauseMixed(fmt.Sprintf("k%d", i), bq.ClauseOpts{})
+				oc.S = bq.SPos{Binding: gen.Pick(t, only, "chain-binding")}
+				c.Chained = true
+			}
+		}
 		oc.Optional = true
 		// a later optional clause may share bindings with the mandatory part only:
 		// the statement does not say what "agrees" means against a NULL introduced
 		// by an earlier optional clause
-		if i > 0 {
+		if i > 0 && (c.Chained || gen.Maybe(t, 35, "chain-optionals")) {
+			for _, b := range oc.Bindings() {
+				for _, pb := range bq.AllBindings(c.Optional) {
+					if b == pb && !mandatoryNames[b] {
+						c.Chained = true
+					}
+				}
+			}
+		} else if i > 0 {
 			prev := map[string]bool{}
 			for _, b := range bq.AllBindings(c.Optional) {
 				if !mandatoryNames[b] {
@@ -377,6 +404,13 @@ func checkC10(ctx *pbt.Ctx, c c10Case) error {
 	// "once for each match of the optional clause": a match is a stored triple, so an interval
 	// clause matching the same (s, id, o) at several anchors counts once per anchor; multiplicities
 	// are open only when a triple is stored in more than one listed graph
+	if c.Chained {
+		ctx.Label("chained-optionals")
+		if len(L) >= 2 {
+			ctx.Nontrivial()
+		}
+		return nil
+	}
 	open := multiplicityOpen(bq.Query{From: c.From, Clauses: append(append([]bq.Clause{}, c.Mandatory...), c.Optional...)}, c.Data)
 	want := envKeys(cur, allCols)
 	got := envKeys(R, allCols)
